@@ -40,6 +40,11 @@ def write_conc_input(chk):
     from .. import extract
     ex = extract.raw_extract(chk)
     chk.extra["scratch_is_local"] = dict(seal=ex["seal_scratch_local"], open=ex["open_scratch_local"])
+    # package-level variables written outside init (go/ast): shared by all concurrent calls
+    pw = ex["package_writes"]
+    chk.extra["package_writes"] = pw
+    pw_sm4 = any(w["pkg"] == "sm4" for w in pw)
+    pw_sm2 = any(w["pkg"] != "sm4" for w in pw)
     for kind, fname, rt, ctxs in (("seal", "gcm_amd64.s", "sealAsm", ac.ctx_gcm(vec, False)),
                                   ("open", "gcm_amd64.s", "openAsm", ac.ctx_gcm(vec, True)),
                                   ("block", "asm_amd64.s", "cryptoBlockAsm", ac.ctx_kernel(1))):
@@ -50,9 +55,11 @@ def write_conc_input(chk):
         if kind in ("seal", "open") and not ex[kind + "_scratch_local"]:
             lm["temp"] = "obj"          # scratch reachable from the shared object / a package variable
         fps[kind] = footprint(res, lm)
+        if pw_sm4:
+            fps[kind] = [("r", "pkg")] + fps[kind] + [("w", "pkg")]
     # Go-level calls (sign / verify / derive): read shared keys and package-level constants, write
     # private results; that they do not write package state is what the dynamic half observes
-    fps["sm2"] = [("r", "in"), ("r", "pkg"), ("w", "scratch"), ("w", "out")]
+    fps["sm2"] = [("r", "in"), ("r", "pkg"), ("w", "scratch"), ("w", "out")] + ([("w", "pkg")] if pw_sm2 else [])
     d = core.stage_specs(chk.rd)
     with open(os.path.join(d, "ConcInput.tla"), "w") as f:
         f.write("----------------------------- MODULE ConcInput -----------------------------\n")
@@ -179,7 +186,9 @@ def run(tier):
         m = re.search(r"Invariant (\w+) is violated", r["out"])
         if not m:
             raise core.Infra("MC_Conc failed:\n" + core._tail(r["out"]))
-        chk.add_failure("conc.footprint_model.%s" % m.group(1),
+        pw = chk.extra.get("package_writes") or []
+        suffix = (".package_state_written." + pw[0]["pkg"].replace("/", "_") + "." + pw[0]["var"]) if pw else ""
+        chk.add_failure("conc.footprint_model.%s%s" % (m.group(1), suffix),
                         "interleaving model over the extracted footprints violates %s" % m.group(1),
                         dict(commands=[], footprints=chk.extra.get("footprints"), invariant=m.group(1),
                              kind="footprint-model"))
